@@ -252,3 +252,54 @@ def gen_expansion_obligations(g, world, structs, directions, configs):
                           'unknown keys of %s are %s by the generated code' % (q, t['unknown']))
                     g.add('expansion__%s__%s__decoder_rejects_duplicates' % (sl, label), 'true' if t['dup_rejected'] else 'false', 'true',
                           'generated deserialize of %s does not reject a duplicated key for every member' % q)
+
+
+def gen_enum_expansion_obligations(g, world, spec, configs):
+    """serde_repr enums and `#[serde(into = "&str", try_from = "&str")]` enums: the generated code maps every
+    variant to ITS OWN discriminant / spelling function and rejects everything else (A2, checked on the expansion).
+    Together with the Verus discriminant proofs (unit c18_numeric_tables) and the Kani string-table proofs this
+    closes the wire mapping of the identifier enums."""
+    for c in configs:
+        try:
+            imp = _impls(expansion_items(c))
+        except ExpandError as e:
+            g.add('expansion__enums__%s__available' % D.cfg_label(c), 'true', 'false', 'macro expansion unavailable: %s' % e, soft=True)
+            continue
+        label = D.cfg_label(c)
+        for q in spec['repr_enums']:
+            it = world.enums.get(q)
+            if it is None:
+                continue
+            mod, name = q.rsplit('::', 1)
+            variants = [v['name'] for v in it['variants']]
+            sl = D.struct_label(q)
+            ser = imp.get((mod, name, 'ser'), '')
+            arms = re.findall(r'%s :: (\w+) => %s :: (\w+) as (\w+)' % (name, name), ser)
+            g.add('expansion__%s__%s__encodes_each_variant_as_its_own_discriminant' % (sl, label),
+                  D._seq(json.dumps(arms)), D._seq(json.dumps([[v, v, 'u8'] for v in variants])),
+                  'generated serialize of %s: %s' % (q, arms))
+            de = imp.get((mod, name, 'de'), '')
+            darms = re.findall(r'discriminant :: (\w+) => :: core :: result :: Result :: Ok \(%s :: (\w+)\)' % name, de)
+            consts = re.findall(r'const (\w+) : u8 = %s :: (\w+) as u8' % name, de)
+            g.add('expansion__%s__%s__decodes_each_discriminant_to_its_own_variant' % (sl, label),
+                  D._seq(json.dumps([darms, consts])), D._seq(json.dumps([[[v, v] for v in variants], [[v, v] for v in variants]])),
+                  'generated deserialize of %s: arms %s, constants %s' % (q, darms, consts))
+            g.add('expansion__%s__%s__rejects_every_other_number' % (sl, label),
+                  'true' if re.search(r'other => :: core :: result :: Result :: Err \(', de) else 'false', 'true',
+                  'generated deserialize of %s has no rejecting fallback arm' % q)
+            g.add('expansion__%s__%s__reads_a_u8' % (sl, label),
+                  'true' if '< u8 as serde :: Deserialize > :: deserialize (deserializer)' in de else 'false', 'true',
+                  'generated deserialize of %s does not read the number as u8' % q)
+        for q in spec['string_enums']:
+            if q not in world.enums:
+                continue
+            mod, name = q.rsplit('::', 1)
+            sl = D.struct_label(q)
+            ser = imp.get((mod, name, 'ser'), '')
+            de = imp.get((mod, name, 'de'), '')
+            g.add('expansion__%s__%s__encodes_through_into_str' % (sl, label),
+                  'true' if re.search(r'Into :: < & str > :: into \(_serde :: __private\d* :: Clone :: clone \(self\)\)', ser) else 'false', 'true',
+                  'generated serialize of %s does not go through Into<&str>' % q)
+            g.add('expansion__%s__%s__decodes_through_try_from_str' % (sl, label),
+                  'true' if re.search(r'< & str as _serde :: Deserialize > :: deserialize \(__deserializer\) , \| v \| _serde :: __private\d* :: TryFrom :: try_from \(v\)', de) else 'false', 'true',
+                  'generated deserialize of %s does not go through TryFrom<&str>' % q)
